@@ -1,7 +1,7 @@
 """C33 - set_const (state-restoration and batched-write clauses)."""
 
 from ..report import Finding
-from ..rules import r_batch, r_bind, r_pair, r_world
+from ..rules import r_batch, r_bind, r_live, r_pair, r_world
 from . import common
 from .c12 import state_keys
 
@@ -13,13 +13,17 @@ def run(db, res, tier):
     npairs += r_pair.check_pairs(res, db, entry, st, lit={"restore": True})
     npairs += r_pair.check_pairs(res, db, entry, st, lit={"restore": False}, require_recompute=False)
   res.floor("save/restore pairs", npairs, 4)
+  nloop = 0
+  for entry in ("set_const.set_const_0", "set_const.set_const_spring"):
+    nloop += r_live.check_loop_scratch(res, db, db.trace(entry, restore=True), entry)
+  res.floor("scatter-then-read scratch vectors in per-object loops", nloop, 2)
   lcs = [lc for lc in db.launch_ctxs() if lc.fi.module == "set_const"]
   tags = r_world.discover_tags(db.launch_ctxs())
   nb, unknown = r_batch.check_batch(res, lcs, tags)
   res.floor("batched accesses in set_const", nb, 34)
   n, same, temp, other = r_bind.check_bindings(res, lcs)
   res.floor("set_const bindings", n, 65)
-  res.rule_text = "R-PAIR: set_const_0 / set_const_spring / set_const restore every integration-state field they overwrite, on every path and as the last write; with restore=True every Data field computed at the temporary state is recomputed after the restore; R-BATCH: every batched field read or written by the set_const kernels is indexed by the thread's batch index modulo that field's own size; R-BIND: launch bindings conform"
+  res.rule_text = "R-PAIR: set_const_0 / set_const_spring / set_const restore every integration-state field they overwrite, on every path and as the last write; with restore=True every Data field computed at the temporary state is recomputed after the restore; R-LIVE.4: the scratch vectors that the per-tendon / per-actuator / per-body loops fill by sparse-column scatter and then solve with are cleared inside each iteration before the scatter; R-BATCH: every batched field read or written by the set_const kernels is indexed by the thread's batch index modulo that field's own size; R-BIND: launch bindings conform"
   res.explanation = "Decides the state-restoration and batched-indexing clauses of C33. Not decided: that the derived values equal mj_setConst's (numeric)."
   res.extra["analysed"] = common.analysed(db, lcs)
   res.assumptions += ["tabled binding exception qpos0 <- m.qpos_spring in set_const_spring"]
